@@ -5,6 +5,7 @@ from jaqalpaq.core.gate import GateStatement
 from jaqalpaq.core.macro import Macro
 from jaqalpaq.core.gatedef import AbstractGate
 from jaqalpaq.core.parameter import Parameter, AnnotatedValue, ParamType
+from jaqalpaq.core.constant import Constant
 from jaqalpaq.core.register import NamedQubit, Register
 from jaqalpaq.core.algorithm.expand_macros import MacroExpander, GateReplacer
 from jaqalpaq.error import JaqalError
@@ -40,17 +41,6 @@ class ReplParam:
     raises_only = ()
 
 
-@assumed("core.algorithm.expand_macros:GateReplacer.visit_LoopStatement", props=["C04"])
-class ReplLoop:
-    def requires(self, loop):
-        return type_is(self, GateReplacer) and isinstance(self.arguments, dict) and isinstance(self.macros, dict) and type_is(loop, LoopStatement) and wf_macro_stmt(loop)
-
-    def ensures(self, loop, result):
-        return type_is(result, LoopStatement)
-
-    raises_only = ("JaqalError",)
-
-
 @spec
 def wf_macro_stmt(o) -> bool:
     """statement trees inside macro bodies: as wf_stmt, gate arguments are values/parameters/qubits"""
@@ -79,7 +69,91 @@ def nf(o) -> bool:
 def wf_macros(m) -> bool:
     """a macro table: names to Macro objects with list parameters and well-formed bodies"""
     return isinstance(m, dict) and forall_keys(m, lambda k: isinstance(dict_lookup(m, k), Macro) and dict_lookup(m, k)._name == k
-                                              and isinstance(dict_lookup(m, k)._parameters, list) and wf_stmt(dict_lookup(m, k)._body))
+                                              and isinstance(dict_lookup(m, k)._parameters, list) and type_is(dict_lookup(m, k)._body, BlockStatement)
+                                              and wf_stmt(dict_lookup(m, k)._body) and wf_body(dict_lookup(m, k)._body))
+
+
+@spec
+def wf_count(c) -> bool:
+    """a loop or subcircuit count inside a macro body: a literal, a let constant, or an untyped macro parameter"""
+    return is_int(c) or type_is(c, Constant) or (type_is(c, Parameter) and c._kind == ParamType.NONE)
+
+
+@spec
+def wf_body(o) -> bool:
+    """statement trees of macro bodies: wf_stmt with the counts typed"""
+    if isinstance(o, LoopStatement):
+        return type_is(o, LoopStatement) and wf_count(o._iterations) and type_is(o._statements, BlockStatement) and wf_body(o._statements)
+    if isinstance(o, BlockStatement):
+        return (type_is(o, BlockStatement) and isinstance(o._statements, list) and is_bool(o._parallel) and is_bool(o._subcircuit)
+                and (same(o._iterations, 1) if not o._subcircuit else wf_count(o._iterations))
+                and forall_range(len(o._statements), lambda k: wf_body(o._statements[k])))
+    return (type_is(o, GateStatement) and isinstance(o._parameters, dict) and isinstance(o._gate_def, AbstractGate)
+            and forall_keys(o._parameters, lambda k: plain_value(dict_lookup(o._parameters, k))))
+
+
+@spec
+def wf_replacer(v) -> bool:
+    return (type_is(v, GateReplacer) and isinstance(v.arguments, dict) and wf_macros(v.macros)
+            and forall_keys(v.arguments, lambda k: plain_value(dict_lookup(v.arguments, k))))
+
+
+@contract("core.algorithm.expand_macros:GateReplacer.visit_default", props=["C04", "C10"])
+class ReplDefault:
+    def requires(self, obj):
+        return type_is(self, GateReplacer)
+
+    def ensures(self, obj, result):
+        return same(result, obj)
+
+    raises_only = ()
+
+
+@assumed("core.algorithm.expand_macros:GateReplacer.visit_GateStatement", props=["C04", "C10"])
+class ReplGateAssumed:
+    """Assumed (the argument substitution is a dict comprehension over a visitor dispatch, outside pyvc's subset):
+    the result is what replace_gate returns for the substituted call - by ReplaceGate a well-formed statement in
+    normal form."""
+
+    def requires(self, gate):
+        return wf_replacer(self) and type_is(gate, GateStatement)
+
+    def ensures(self, gate, result):
+        return wf_stmt(result) and nf(result)
+
+    raises_only = ("JaqalError",)
+
+
+@contract("core.algorithm.expand_macros:GateReplacer.visit_LoopStatement", props=["C04", "C10"])
+class ReplLoop:
+    def requires(self, loop):
+        return wf_replacer(self) and type_is(loop, LoopStatement) and wf_body(loop)
+
+    def ensures(self, loop, result):
+        return type_is(result, LoopStatement) and wf_stmt(result) and nf(result)
+
+    raises_only = ("JaqalError",)
+
+
+@contract("core.algorithm.expand_macros:GateReplacer.visit_BlockStatement", props=["C04", "C10"])
+class ReplBlock:
+    """substituting into a block keeps its kind and subcircuit annotation and yields normal form: the body of a
+    macro called from this block joins the block when it has the block's kind (C10: idempotence, legal text)"""
+
+    def requires(self, block):
+        return wf_replacer(self) and type_is(block, BlockStatement) and wf_body(block)
+
+    def ensures_kind(self, block, result):
+        return type_is(result, BlockStatement) and result._parallel == block._parallel and result._subcircuit == block._subcircuit
+
+    def ensures_normal_form(self, block, result):
+        return wf_stmt(result) and nf(result)
+
+    def inv_1(self, block, statements, _k):
+        return isinstance(statements, list) and forall_range(len(statements), lambda j: wf_stmt(statements[j]) and nf(statements[j])
+                                                               and not same_kind_plain(statements[j], block._parallel))
+
+    raises_only = ("JaqalError",)
 
 
 @contract("core.algorithm.expand_macros:MacroExpander.visit_LoopStatement", props=["C04", "C11"])
@@ -87,7 +161,7 @@ class ExpLoop:
     """loop counts are carried over unchanged"""
 
     def requires(self, loop):
-        return type_is(self, MacroExpander) and wf_macros(self.macros) and isinstance(loop, LoopStatement) and wf_stmt(loop)
+        return type_is(self, MacroExpander) and wf_macros(self.macros) and isinstance(loop, LoopStatement) and wf_stmt(loop) and wf_body(loop)
 
     def ensures(self, loop, result):
         return type_is(result, LoopStatement) and same(result._iterations, loop._iterations)
@@ -103,7 +177,7 @@ class ExpBlock:
     """block kind, subcircuit annotation and count are carried over unchanged"""
 
     def requires(self, block):
-        return type_is(self, MacroExpander) and wf_macros(self.macros) and isinstance(block, BlockStatement) and wf_stmt(block)
+        return type_is(self, MacroExpander) and wf_macros(self.macros) and isinstance(block, BlockStatement) and wf_stmt(block) and wf_body(block)
 
     def ensures_kind(self, block, result):
         return type_is(result, BlockStatement) and result._parallel == block._parallel
@@ -125,7 +199,7 @@ class ExpBlock:
 class ExpGate:
     def requires(self, gate):
         return (type_is(self, MacroExpander) and wf_macros(self.macros) and type_is(gate, GateStatement)
-                and isinstance(gate._parameters, dict) and isinstance(gate._gate_def, AbstractGate))
+                and isinstance(gate._parameters, dict) and isinstance(gate._gate_def, AbstractGate) and wf_body(gate))
 
     def ensures(self, gate, result):
         return wf_stmt(result) and nf(result)
@@ -149,7 +223,8 @@ class ReplaceGate:
     """a call with the wrong number of arguments is rejected with JaqalError; a non-macro gate is returned as is"""
 
     def requires(gate, macros):
-        return type_is(gate, GateStatement) and isinstance(gate._parameters, dict) and isinstance(gate._gate_def, AbstractGate) and wf_macros(macros)
+        return (type_is(gate, GateStatement) and isinstance(gate._parameters, dict) and isinstance(gate._gate_def, AbstractGate) and wf_macros(macros)
+                and wf_body(gate))
 
     def ensures_native(gate, macros, result):
         return implies(not has_key(macros, gate._gate_def._name), same(result, gate))
@@ -163,13 +238,13 @@ class ReplaceGate:
     raises_only = ("JaqalError",)
 
 
-@assumed("core.algorithm.expand_macros:GateReplacer.visit_Macro", props=["C04"])
-class ReplMacroAssumed:
-    """Assumed, not verified here (the substitution walk is covered by the bounded stand-in only):
-    substituting a macro body yields a block and raises nothing but JaqalError."""
+@contract("core.algorithm.expand_macros:GateReplacer.visit_Macro", props=["C04", "C10"])
+class ReplMacro:
+    """substituting a macro's body yields a well-formed block in normal form; only the replacer's own scratch
+    field is written"""
 
     def requires(self, macro):
-        return type_is(self, GateReplacer) and isinstance(macro, Macro)
+        return wf_replacer(self) and isinstance(macro, Macro) and type_is(macro._body, BlockStatement) and wf_body(macro._body)
 
     def ensures(self, macro, result):
         return isinstance(result, BlockStatement) and wf_stmt(result) and nf(result)
